@@ -436,3 +436,39 @@ func vc_C02_revolvetheta() {
 	}
 	vfAssert(vfNearF(r, vfMaxF(a.v[0], wedge)), "RevolveTheta3D is the revolved profile intersected with the wedge of the normalised angle")
 }
+
+// A union owns its operand list: the caller's slice is not rewritten by the
+// constructor, and overwriting its elements afterwards does not change what the
+// union computes (scratch slices refilled in a loop, optional nil parts).
+func vc_C02_union_owns_operands() {
+	p3, p2 := vfPoint3("p"), vfPoint2("q")
+	if vfCase("dim", 2) == 0 {
+		a, b, c := vfNewLeaf3("a", 0), vfNewLeaf3("b", 0), vfNewLeaf3("c", 0)
+		parts := []SDF3{a, nil, b}
+		u := Union3D(parts...)
+		vfAssert(parts[0] == SDF3(a) && parts[1] == nil && parts[2] == SDF3(b), "Union3D leaves the caller's operand slice as it was")
+		parts[0], parts[1], parts[2] = c, c, c
+		r := u.Evaluate(p3)
+		vfReach("union3d after the caller reused its slice")
+		vfAssert(len(c.v) == 0, "Union3D does not evaluate a shape that was put into the caller's slice afterwards")
+		if len(a.v) == 1 && len(b.v) == 1 {
+			vfAssert(r == vfMinF(a.v[0], b.v[0]), "Union3D is the minimum over the operands it was built from")
+		} else {
+			vfAssert(false, "Union3D evaluates each operand it was built from exactly once")
+		}
+		return
+	}
+	a, b, c := vfNewLeaf2("a", 0), vfNewLeaf2("b", 0), vfNewLeaf2("c", 0)
+	parts := []SDF2{a, nil, b}
+	u := Union2D(parts...)
+	vfAssert(parts[0] == SDF2(a) && parts[1] == nil && parts[2] == SDF2(b), "Union2D leaves the caller's operand slice as it was")
+	parts[0], parts[1], parts[2] = c, c, c
+	r := u.(*UnionSDF2).EvaluateSlow(p2)
+	vfReach("union2d after the caller reused its slice")
+	vfAssert(len(c.v) == 0, "Union2D does not evaluate a shape that was put into the caller's slice afterwards")
+	if len(a.v) == 1 && len(b.v) == 1 {
+		vfAssert(r == vfMinF(a.v[0], b.v[0]), "Union2D is the minimum over the operands it was built from")
+	} else {
+		vfAssert(false, "Union2D evaluates each operand it was built from exactly once")
+	}
+}
